@@ -3,6 +3,7 @@ harness observe every task (inputs before/after, re-execution, pickling, invocat
 
 from __future__ import annotations
 
+import functools
 import hashlib
 import random
 from collections import deque
@@ -37,9 +38,27 @@ def _nest(keys, results):
     return results[keys]
 
 
+class _Hasher:
+    def __init__(self, arrays_only=False):
+        self._h = hashlib.sha1()
+        self._fv_depth = 0
+        self.arrays_only = arrays_only
+
+    def update(self, b):
+        self._h.update(b)
+
+    def hexdigest(self):
+        return self._h.hexdigest()
+
+
+def _depth(h):
+    return getattr(h, "_fv_depth", 0)
+
+
 def digest(obj) -> str:
-    """structural content digest (ndarray bytes+dtype+shape; recursive over containers / dataclasses)"""
-    h = hashlib.sha1()
+    """structural content digest (ndarray bytes+dtype+shape; recursive over containers / dataclasses /
+    partials / generic objects, ignoring cached_property caches)"""
+    h = _Hasher()
     _feed(h, obj)
     return h.hexdigest()
 
@@ -75,13 +94,57 @@ def _feed(h, obj):
             h.update(f.name.encode())
             _feed(h, getattr(obj, f.name))
     elif isinstance(obj, (np.generic, int, float, str, bool, bytes)) or obj is None:
-        h.update(repr(obj).encode())
+        if not getattr(h, "arrays_only", False):
+            h.update(repr(obj).encode())
+    elif isinstance(obj, functools.partial):
+        h.update(b"partial")
+        _feed(h, obj.func)
+        _feed(h, obj.args)
+        _feed(h, obj.keywords)
+    elif isinstance(obj, (set, frozenset)):
+        h.update(b"set")
+        for x in sorted(obj, key=repr):
+            _feed(h, x)
+    elif callable(obj) and hasattr(obj, "__qualname__") and not hasattr(obj, "__self__"):
+        if not getattr(h, "arrays_only", False):
+            h.update(f"fn:{getattr(obj, '__module__', '')}.{obj.__qualname__}".encode())
+    elif _depth(h) < 12 and (hasattr(obj, "__dict__") or hasattr(obj, "__slots__")):
+        # generic object (dask Task / DataNode, Aggregation, toolz Compose, ...): its attributes, minus
+        # functools.cached_property caches (pure memoisation, not state)
+        h.update(b"obj" + type(obj).__qualname__.encode())
+        cached = {n for n in dir(type(obj)) if isinstance(getattr(type(obj), n, None), functools.cached_property)}
+        names = list(getattr(obj, "__dict__", {}).keys())
+        for klass in type(obj).__mro__:
+            for n in getattr(klass, "__slots__", ()) or ():
+                if isinstance(n, str) and n not in names:
+                    names.append(n)
+        h._fv_depth = _depth(h) + 1
+        try:
+            for n in sorted(names):
+                if n in cached or n.startswith("__") or n in ("_hash", "_token", "_repr"):
+                    continue
+                try:
+                    v = getattr(obj, n)
+                except Exception:  # noqa: BLE001
+                    continue
+                h.update(n.encode())
+                _feed(h, v)
+        finally:
+            h._fv_depth -= 1
     else:
         h.update(repr(type(obj)).encode())
-        try:
-            h.update(repr(obj).encode())
-        except Exception:  # noqa: BLE001
-            pass
+        if not getattr(h, "arrays_only", False):
+            try:
+                h.update(repr(obj).encode())
+            except Exception:  # noqa: BLE001
+                pass
+
+
+def array_digest(obj) -> str:
+    """digest of the array / Index data reachable from obj only (scalars and callables ignored)"""
+    h = _Hasher(arrays_only=True)
+    _feed(h, obj)
+    return h.hexdigest()
 
 
 class OwnedScheduler:
